@@ -1,4 +1,5 @@
 import Rcgen.Proofs.Ber
+import Rcgen.Proofs.DerRoundTrip
 import Rcgen.Theorems.C06
 /-
   C06, the tolerant reader (same namespace as C06.lean).  rcgen reads requests with
@@ -25,6 +26,51 @@ theorem tolerant_reader_extends_strict :
     (the generic DER round trip composed with the extension) -/
 theorem tolerant_reader_reads_every_encoding (t : Asn1) (h : decodeAll (encode t) = some t) :
     decodeAllBer (encode t) = some t := Proofs.Ber.decodeAll_sub _ _ h
+
+/-- every element of a DER string of well-formed elements is reported, in order -/
+theorem elements_of_encoding (ts : List Asn1) (h : WFList ts) :
+    elementsBer (encodeList ts) = some ts := by
+  unfold elementsBer
+  apply Proofs.Ber.decodeList_sub
+  apply Rcgen.decodeList_encodeList ts h
+  have := Rcgen.sizeList_le_encodeList ts h
+  omega
+
+/-- **on what rcgen writes the tolerant reading of an extended key usage is the list written**:
+    for the value `SEQUENCE OF OBJECT IDENTIFIER` over any identifiers (any number, of any
+    length below the representable bound), the purposes the tolerant reader reports are exactly
+    those identifiers, duplicates dropped -/
+theorem purposes_of_written_value (cs : List Bytes)
+    (hc : ∀ c ∈ cs, c.length < 256 ^ 126)
+    (hlen : (encodeList (cs.map (fun c => Asn1.prim 0 6 c))).length < 256 ^ 126) :
+    berPurposes [encode (.cons 0 16 (cs.map (fun c => Asn1.prim 0 6 c)))] = some cs.eraseDups := by
+  have hwfl : WFList (cs.map (fun c => Asn1.prim 0 6 c)) := by
+    induction cs with
+    | nil => simp [WFList]
+    | cons c cs ih =>
+      simp only [List.map_cons, WFList, Asn1.WF]
+      exact ⟨⟨by decide, by decide, hc c (by simp)⟩, ih (fun c' h' => hc c' (by simp [h']))
+        (by
+          simp only [List.map_cons, encodeList, List.length_append] at hlen
+          omega)⟩
+  have hwf : WFList [Asn1.cons 0 16 (cs.map (fun c => Asn1.prim 0 6 c))] := by
+    simp only [WFList, Asn1.WF, and_true]
+    exact ⟨by decide, by decide, hlen, hwfl⟩
+  have he := elements_of_encoding _ hwf
+  simp only [encodeList, List.append_nil] at he
+  have hm : ∀ (l : List Bytes), (l.map (fun c => Asn1.prim 0 6 c)).mapM oidContentOf = some l := by
+    intro l
+    induction l with
+    | nil => rfl
+    | cons c l ih => simp only [List.map_cons, List.mapM_cons, ih, oidContentOf, bind, Option.bind, pure]
+  unfold berPurposes
+  simp only [List.mapM_cons, List.mapM_nil, he, bind, Option.bind, pure]
+  rw [hm cs]
+  simp
+
+example : berPurposes [encode (.cons 0 16 [Asn1.prim 0 6 [0x2b, 6, 1, 5, 5, 7, 3, 1], Asn1.prim 0 6 [0x2b, 6, 1, 5, 5, 7, 3, 2],
+      Asn1.prim 0 6 [0x2b, 6, 1, 5, 5, 7, 3, 1]])] =
+    some [[0x2b, 6, 1, 5, 5, 7, 3, 1], [0x2b, 6, 1, 5, 5, 7, 3, 2]] := by decide
 
 /-! non-vacuity and the difference: SEQUENCE { OID 1.3.6.1.5.5.7.3.1 } with its length in the
     long form is read by the tolerant reader and not by the strict one; two elements in one value
